@@ -87,7 +87,7 @@ IO_RULE = ("an input = (corpus file, prefix length, fault kind eof|stream-goes-b
 PROPS["C18"] = {
     "parts": [
         {"engine": "io", "configs": {"quick": ["dbg"], "thorough": ["dbg", "rel"]}, "share": 0.5, "jobs": io_jobs, "run_kv": {}},
-        {"engine": "plan", "configs": {"quick": ["dbg"], "thorough": ["dbg", "asan"]}, "share": 0.25, "run_kv": {"timeout_ms": 3000, "prop": "C18"}, "layouts": {"quick": 2, "thorough": 3}},
+        {"engine": "plan", "configs": {"quick": ["dbg"], "thorough": ["dbg", "asan"]}, "share": 0.25, "run_kv": {"timeout_ms": 3000, "prop": "C18", "hang_is_failure": "read"}, "layouts": {"quick": 2, "thorough": 3}},
         {"engine": "net", "configs": {"quick": ["dbg"], "thorough": ["dbg", "asan"]}, "share": 0.25, "run_kv": {"prop": "C18", "timeout_ms": 6000, "hang_is_failure": 1}},
     ],
     "engine": "io", "configs": {"quick": ["dbg"], "thorough": ["dbg", "rel", "asan"]}, "budget": {"quick": 60, "thorough": 1200},
